@@ -718,10 +718,15 @@ impl<'a> Gen<'a> {
         let min = ty.min();
         match ty {
             Ty::Bool => BigInt::from(self.ch.below(2)),
-            _ => match self.ch.weighted(&[6, 2, 1, 1]) {
+            _ => match self.ch.weighted(&[6, 2, 1, 1, 5]) {
                 0 => {
                     let v = BigInt::from(self.ch.below(12));
                     if ty.is_signed() && self.ch.chance(1, 3) { -v } else { v }
+                }
+                4 => {
+                    // Identity / absorbing elements: the operands special-cased by optimisations.
+                    let v = BigInt::from(*self.ch.pick(&[1i64, 0, 1, 2, -1]));
+                    if v < min { BigInt::one() } else { v }
                 }
                 1 => {
                     let k = self.ch.below(5);
@@ -828,7 +833,12 @@ impl<'a> Gen<'a> {
                         &[BinOp::Add, BinOp::Sub, BinOp::Mul, BinOp::Div, BinOp::Rem, BinOp::And, BinOp::Or, BinOp::Xor]
                     };
                     let op = *self.ch.pick(ops);
-                    Expr::Bin(op, ty.clone(), Box::new(self.expr(env, ty, f)), Box::new(self.expr(env, ty, f)))
+                    // Often: variable-ish operand against a literal (either side).
+                    match self.ch.weighted(&[3, 2, 1]) {
+                        0 => Expr::Bin(op, ty.clone(), Box::new(self.expr(env, ty, f)), Box::new(self.expr(env, ty, f))),
+                        1 => Expr::Bin(op, ty.clone(), Box::new(self.leaf(env, ty)), Box::new(Expr::Lit(ty.clone(), self.small_value(ty)))),
+                        _ => Expr::Bin(op, ty.clone(), Box::new(Expr::Lit(ty.clone(), self.small_value(ty))), Box::new(self.leaf(env, ty))),
+                    }
                 }
                 1 => {
                     self.stats.casts += 1;
@@ -1283,7 +1293,8 @@ impl<'a> Gen<'a> {
                 };
                 let op = *self.ch.pick(ops);
                 self.stats.arith += 1;
-                Some(Stmt::OpAssign(v.name.clone(), op, v.ty.clone(), self.expr(env, &v.ty, f.min(2))))
+                let rhs = if self.ch.bool() { Expr::Lit(v.ty.clone(), self.small_value(&v.ty)) } else { self.expr(env, &v.ty, f.min(2)) };
+                Some(Stmt::OpAssign(v.name.clone(), op, v.ty.clone(), rhs))
             }
             3 => {
                 self.stats.ifs += 1;
@@ -1468,7 +1479,59 @@ impl<'a> Gen<'a> {
             let n = 1 + self.ch.below(5);
             let stmts = self.stmts(&mut e2, n, fuel);
             let tail = self.expr(&e2, &ret, fuel);
+            let mut stmts = stmts;
             if is_entry {
+                // Identity / neighbour probes: for a few integer variables, guarded so that they
+                // cannot overflow, `v - 1`, `v + 1`, `v * 1`, `v + 0`, `v / 1`, `v - 0`, `v * 2 / 2`
+                // (the operand shapes that optimisations special-case) flow into the digest.
+                let ints: Vec<VarInfo> = e2.vars.iter().filter(|v| matches!(v.ty, Ty::U(_) | Ty::I(_))).cloned().collect();
+                let n_probe = ints.len().min(3);
+                for k in 0..n_probe {
+                    let v = ints[(self.ch.below(ints.len()) + k) % ints.len()].clone();
+                    let t = v.ty.clone();
+                    let var = || Box::new(Expr::Var(v.name.clone()));
+                    let l = |x: i64| Box::new(Expr::Lit(t.clone(), BigInt::from(x)));
+                    let lo = Expr::Lit(t.clone(), t.min() + 2);
+                    let hi = Expr::Lit(t.clone(), t.max() / 2 - 2);
+                    let cond = Expr::AndAnd(
+                        Box::new(Expr::Cmp(CmpOp::Gt, t.clone(), var(), Box::new(lo))),
+                        Box::new(Expr::Cmp(CmpOp::Lt, t.clone(), var(), Box::new(hi))),
+                    );
+                    let probes = vec![
+                        Expr::Bin(BinOp::Sub, t.clone(), var(), l(1)),
+                        Expr::Bin(BinOp::Add, t.clone(), var(), l(1)),
+                        Expr::Bin(BinOp::Mul, t.clone(), var(), l(1)),
+                        Expr::Bin(BinOp::Add, t.clone(), var(), l(0)),
+                        Expr::Bin(BinOp::Div, t.clone(), var(), l(1)),
+                        Expr::Bin(BinOp::Sub, t.clone(), var(), l(0)),
+                        Expr::Bin(BinOp::Add, t.clone(), l(1), var()),
+                        Expr::Bin(BinOp::Div, t.clone(), Box::new(Expr::Bin(BinOp::Mul, t.clone(), var(), l(2))), l(2)),
+                        Expr::Bin(BinOp::Rem, t.clone(), var(), l(2)),
+                        Expr::Bin(BinOp::Mul, t.clone(), var(), l(0)),
+                    ];
+                    let mut sum = Expr::Lit(Ty::Felt, BigInt::zero());
+                    for (i, pe) in probes.into_iter().enumerate() {
+                        let term = Expr::Bin(
+                            BinOp::Mul,
+                            Ty::Felt,
+                            Box::new(Expr::Into(t.clone(), Ty::Felt, Box::new(pe))),
+                            Box::new(Expr::Lit(Ty::Felt, BigInt::from(2 * i + 3))),
+                        );
+                        sum = Expr::Bin(BinOp::Add, Ty::Felt, Box::new(sum), Box::new(term));
+                    }
+                    let name = self.fresh("pr");
+                    stmts.push(Stmt::Let(
+                        name.clone(),
+                        false,
+                        Ty::Felt,
+                        Expr::If(
+                            Box::new(cond),
+                            Box::new(Block { stmts: vec![], tail: sum }),
+                            Box::new(Block { stmts: vec![], tail: Expr::Lit(Ty::Felt, BigInt::zero()) }),
+                        ),
+                    ));
+                    e2.vars.push(VarInfo { name, ty: Ty::Felt, mutable: false });
+                }
                 // Observability: the entry also returns a felt252 digest of every scalar variable
                 // in scope, so that intermediate computations reach the result.
                 let mut digest = Expr::Lit(Ty::Felt, BigInt::zero());
